@@ -11,7 +11,7 @@ from typing import List
 
 from bounded import isolated
 from props import C01c
-from props.native_common import HELPERS, VALIDITY, add_native_functions, helper_jobs, loader_jobs, native_assumptions, validity_jobs
+from props.native_common import HELPERS, VALIDITY, add_native_functions, helper_jobs, loader_jobs, native_assumptions, ring_jobs, ring_report, validity_jobs
 from vc.common import Report, main_wrapper, run_and_discharge
 
 PROP = 'C07'
@@ -29,6 +29,7 @@ def jobs(tier: str) -> List[tuple]:
     js += helper_jobs(C01c.WIDTHS if th else (64,))
     js += validity_jobs()
     js += loader_jobs(C01c.WIDTHS if th else (32,))
+    js += ring_jobs()
     return js
 
 
@@ -38,9 +39,10 @@ def body(tier: str, seed: int) -> int:
     add_native_functions(rep, ('run_paged_loop_impl', 'run_flat_loop_impl') + HELPERS, 'paged loop with_ring=1 (symbolic flat pointer: flat / hybrid / paged storage), helpers; quick: w=16 loop, w=64 helpers; thorough: all widths and loops')
     add_native_functions(rep, ('Memory_set_words',), 'bulk load before the storage decision (page-backed): loop invariant absM = entry memory + first i items masked; Rep; reference balance')
     add_native_functions(rep, VALIDITY + ('Memory_add_segment',), 'against the definition of the ghost valid-set V: loop invariants (linear scan, binary search over disjoint ordered ranges, first-intersection fast range, merge loop with a ghost witness map); width independent')
+    ring_report(rep)
     native_assumptions(rep)
-    rep.assume('[B only] mem_decide_storage (flat-window construction and copy-in of the loaded pages), the page hash table, build_run_result (ring unrolling), run_measured_loop, Memory_set_words/add_segment AFTER a storage decision (API misuse): exercised by the bounded layout runs, not under contract')
-    rep.notes.append('Rep (R2 flat array, R3 word range, R4 validity soundness, R5 cache coherence, R6, normalisation) preserved on every path; ring invariant ring[k % len] == ip of op k for the last len ops')
+    rep.assume('[B only] mem_decide_storage (flat-window construction and copy-in of the loaded pages), the page hash table, build_run_result (tuple construction around last_ops_ring_to_list), run_measured_loop, Memory_set_words/add_segment AFTER a storage decision (API misuse): exercised by the bounded layout runs, not under contract')
+    rep.notes.append('Rep (R2 flat array, R3 word range, R4 validity soundness, R5 cache coherence, R6, normalisation) preserved on every path; ring content invariant ring[k % len] == ip of op k for the last min(writes, len) ops: established for the fresh ring, preserved by each op\'s store (ring_lemma), consumed by last_ops_ring_to_list (quick tier: the per-op store itself is proved by the ring lanes of C11 quick / C07 thorough)')
     th = tier == 'thorough'
     isolated.run(rep, 'directed', 0, seed)
     isolated.run(rep, 'layouts', 6000 if th else 500, seed)
